@@ -940,3 +940,8 @@ PRESERVING += [
     ('p5-dfu-read-all', ['C18', 'C19'], [(D, _FW_READ, "        firmware = f.read(-1)\n")]),
     ('p5-cli-probe-append', ['C15', 'C16', 'C17'], [(A, _CLI_CONST, _probe('ab'))]),
 ]
+
+from .variants_wiring import BREAKING as _W_BREAKING, PRESERVING as _W_PRESERVING, UNDECIDED as _W_UNDECIDED  # noqa: E402
+BREAKING += _W_BREAKING
+PRESERVING += _W_PRESERVING
+UNDECIDED += _W_UNDECIDED
